@@ -87,8 +87,10 @@ def families(tier: str) -> list[dict]:
                            exhaustive=False, num=2 if quick else 40,
                            spec_depth=5, save_args=(True,),
                            load_args=(True, False)))
+    # (only float parameters are scheduled here: an interval doubled on every
+    # scheduler step of a long behaviour leaves TLC's 32-bit integers)
     m3 = dict(base, F=2, I=2, in_hook=True, accum=1, prediv=True,
-              sched={'factor_update_steps': 'dbl_after1', 'lr': 'half'})
+              sched={'damping': 'half', 'lr': 'half'})
     fams.append(reffam.fam(m3, ['Train', 'Step', 'Sched', 'Reset'], L,
                            sched_args=[-1], exhaustive=False,
                            num=2 if quick else 30, spec_depth=5))
